@@ -198,6 +198,23 @@ func ReadTrace(path string) string {
 	return string(b[8 : 8+n])
 }
 
+// KeepAlive refreshes the worker's heartbeat every few seconds until the returned function is called: for
+// single long steps that are healthy by construction (sub-process with its own deadline, compiler run).
+func (c *Ctx) KeepAlive(label string) (stop func()) {
+	done := make(chan struct{})
+	go func() {
+		for {
+			select {
+			case <-done:
+				return
+			case <-time.After(5 * time.Second):
+				c.Cur(label + " (running)")
+			}
+		}
+	}()
+	return func() { close(done) }
+}
+
 // Tick is called once per executed case; it checks the deadline every 512 calls.
 func (c *Ctx) Tick() bool {
 	c.ticks++
@@ -341,7 +358,7 @@ func watchdog(c *Ctx, done chan struct{}) {
 			last = n
 			var ms runtime.MemStats
 			runtime.ReadMemStats(&ms)
-			if stuck >= 15 || ms.HeapAlloc > 6<<30 {
+			if stuck >= 45 || ms.HeapAlloc > 6<<30 {
 				cur, _ := c.cur.Load().(string)
 				why := "hang"
 				if ms.HeapAlloc > 6<<30 {
@@ -349,7 +366,7 @@ func watchdog(c *Ctx, done chan struct{}) {
 				}
 				fmt.Fprintf(os.Stderr, "WATCHDOG %s\n", why)
 				r := Result{Counters: map[string]int64{}, Exhaustive: false, Caps: []string{"watchdog:" + why}}
-				v := Violation{Property: c.Prop, Kind: why, Case: cur, Detail: "worker watchdog: case did not finish within 30s or heap > 6GiB"}
+				v := Violation{Property: c.Prop, Kind: why, Case: cur, Detail: "worker watchdog: case did not finish within 90s or heap > 6GiB"}
 				v.Finish()
 				r.Violations = []Violation{v}
 				out, _ := json.Marshal(r)
